@@ -8,7 +8,8 @@ Cases (N = the limit passed to `Sieve::new`, all numbers decimal):
                      (driver: trial-division spec; harness: its own trial-division oracle), else the first bad entry.
 * `big N`            same raw; the driver does not recompute the spec tables (view `ok` is `C13.minPrime_spec` etc.,
                      proved for every N); the harness compares against an independent segmented Eratosthenes.
-* `mnp N` `isp N` `primes N`   the whole table as text.
+* `mnp N` `isp N` `primes N`   the whole table as text (view of `mnp`: entries 0 and 1 masked as `_` — the property speaks about
+                     2 ≤ n; likewise `tab` does not compare them with the spec, they only enter the model-vs-implementation hash).
 * `mp N n` / `ip N n`          one accessor call (out of range ⇒ `panic:index`, outside the property's domain).
 * `fact N n`                   `factorize(n).collect()` as `[p^e,...]`.
 * `factm N n1,n2,...`          several factorisations on one sieve, joined by `/`.
@@ -44,7 +45,8 @@ instance : BEq (Except Panic Bool) := ⟨fun a b => match a, b with
 
 /-- first entry (if any) where the model's tables differ from the arithmetic definitions -/
 def firstBad (s : St) (N : Nat) : Option String :=
-  let bad1 := (List.range (N + 1)).find? (fun c => minPrime s c != .ok (specMnpEntry c))
+  -- entries 0 and 1 of the least-prime table are outside the property (2 ≤ n): not compared (they stay in the hash)
+  let bad1 := (List.range (N + 1)).find? (fun c => 2 ≤ c && minPrime s c != .ok (specMnpEntry c))
   match bad1 with
   | some c => some s!"bad mnp[{c}]"
   | none =>
@@ -80,8 +82,10 @@ def handle (line : String) : String :=
     | some N =>
       let s := sieve N
       let m := (List.range (N + 1)).map (fun c => showExcept toString (minPrime s c))
-      let sp := (List.range (N + 1)).map (fun c => toString (specMnpEntry c))
-      answer ("[" ++ ",".intercalate m ++ "]") ("[" ++ ",".intercalate sp ++ "]")
+      -- view: entries 0 and 1 masked (`_`), the property starts at n = 2
+      let mv := (List.range (N + 1)).map (fun c => if c < 2 then "_" else showExcept toString (minPrime s c))
+      let sp := (List.range (N + 1)).map (fun c => if c < 2 then "_" else toString (specMinFac c))
+      answer3 ("[" ++ ",".intercalate m ++ "]") ("[" ++ ",".intercalate mv ++ "]") ("[" ++ ",".intercalate sp ++ "]")
     | none => badLine line
   | ["isp", sN] =>
     match parseNat? sN with
